@@ -143,6 +143,49 @@ func init() {
 	def("strings.HasPrefix", none, func(g *gen, st *state, c *ssa.CallCommon, a []string, in ssa.Instruction) []string {
 		return []string{app("str.prefixof", a[1], a[0])}
 	})
+	// strings.Map(f, s) with a function literal f that captures nothing and has a (checked) contract without
+	// preconditions: every rune of the result is a non-negative value f returned for some rune — f's
+	// postcondition, instantiated for each rune of the result (spec/shnames.smt2: mapSrc names the argument)
+	def("strings.Map", none, func(g *gen, st *state, c *ssa.CallCommon, a []string, in ssa.Instruction) []string {
+		m := g.newConst("mapped", "String")
+		fn, ok := c.Args[0].(*ssa.Function)
+		if !ok || len(fn.FreeVars) != 0 || len(fn.Params) != 1 {
+			return []string{m}
+		}
+		con := g.P.contractFor(fn)
+		if con == nil || con.flag("trusted") || len(con.Requires) != 0 || len(con.Ensures) == 0 {
+			return []string{m}
+		}
+		g.useSpec("mapSrc")
+		runeT := fn.Params[0].Type()
+		e := &env{g: g, st: st, names: map[string]sval{}, lets: con.Lets}
+		e.names[fn.Params[0].Name()] = g.goVal(app("mapSrc", m, "mk"), runeT)
+		e.lookup = func(name string) (sval, bool) { return g.lookupCommon(e, name) }
+		e.old = e
+		e.results = []sval{g.goVal(app("runeAt", m, "mk"), runeT)}
+		e.resNames = []string{""}
+		nDecl, nAss := len(g.vc.Decls), len(g.vc.Asserts)
+		var posts []string
+		for _, en := range con.Ensures {
+			posts = append(posts, g.specBool(e, en.Expr))
+		}
+		if len(g.vc.Decls) != nDecl || len(g.vc.Asserts) != nAss {
+			// the postcondition needed auxiliary definitions: they would mention the bound variable
+			g.vc.Decls, g.vc.Asserts = g.vc.Decls[:nDecl], g.vc.Asserts[:nAss]
+			g.note("strings.Map: the postcondition of %s is not a closed term; result unconstrained", fn.Name())
+			return []string{m}
+		}
+		g.assert(fmt.Sprintf("(forall ((mk Int)) (! (=> (and (<= 0 mk) (< mk (runeCount %s))) (and (>= (runeAt %s mk) 0) %s)) :pattern ((runeAt %s mk))))", m, m, sAnd(posts...), m))
+		g.P.usedAssumption("strings.Map(f, s): every rune of the result is a non-negative value f returned for a rune of s (f's own postcondition is a checked contract)")
+		return []string{m}
+	})
+	def("unicode/utf8.DecodeRuneInString", none, func(g *gen, st *state, c *ssa.CallCommon, a []string, in ssa.Instruction) []string {
+		g.useSpec("runeCount")
+		size := g.newConst("runesize", "Int")
+		g.assert(sAnd(app("<=", "0", size), app("<=", size, "4")))
+		g.P.usedAssumption("utf8.DecodeRuneInString(s): RuneError for the empty string, otherwise the first rune of s (assumed: s is valid UTF-8)")
+		return []string{sIte(sEq(app("runeCount", a[0]), "0"), "65533", app("runeAt", a[0], "0")), size}
+	})
 	def("strings.HasSuffix", none, func(g *gen, st *state, c *ssa.CallCommon, a []string, in ssa.Instruction) []string {
 		return []string{app("str.suffixof", a[1], a[0])}
 	})
